@@ -1,7 +1,7 @@
 import PallasVerif.Stream
 import PallasVerif.Model.Ed25519
 /-! stream `ed25519` (C11). Stateless.
-    ops: `selftest` | `pk <sk32>` | `sign <sk32> <msg>` | `xcheck <ext64>` | `xpk <ext64>` |
+    ops: `selftest` | `xtable <filler62>` (all 65536 (byte 0, byte 31) pairs through `check_structure`) | `pk <sk32>` | `sign <sk32> <msg>` | `xcheck <ext64>` | `xpk <ext64>` |
     `xsign <ext64> <msg>` | `verify <pk32> <msg> <sig64>` | `verifyrfc <pk32> <msg> <sig64>` (model-side strict
     RFC 8032 reference; the harness answers it with an independent implementation). -/
 namespace PallasVerif.Streams.Ed25519
@@ -20,6 +20,10 @@ def step (_ : Unit) (toks : List String) : Unit × String :=
     match Tok.unhex sk, Tok.unhex m with
     | some sk, some m => if sk.length = 32 then okHex (sign sk m) else "bad-op"
     | _, _ => "bad-op"
+  | ["xtable", f] =>
+    match Tok.unhex f with
+    | some f => if f.length = 62 then okHex (checkTable f) else "bad-op"
+    | none => "bad-op"
   | ["xcheck", x] =>
     match Tok.unhex x with
     | some x => if x.length = 64 then "ok " ++ Tok.showBool (checkStructure x) else "bad-op"
